@@ -248,9 +248,19 @@ def h_all_analyses(ctx, n=2):
     from sysloss import diagram
     from .. import hist
 
+    # everything in this harness is concrete: the components are built on the REAL scipy interpolator (the grid contract model copies its
+    # table, scipy keeps the caller's array - a difference that matters for code that scales the table in place)
+    import scipy.interpolate as _si
+
+    _old_nd = C.LinearNDInterpolator
+    C.LinearNDInterpolator = _si.LinearNDInterpolator
+    try:
+        buck = C.Converter("BUCK", vo=3.3, eff={"vi": [5.0, 9.0], "io": [0.01, 0.1, 0.5], "eff": [[0.7, 0.85, 0.9], [0.65, 0.8, 0.88]]},
+                           iq=1e-4, iis=1e-6, rt=20.0)
+    finally:
+        C.LinearNDInterpolator = _old_nd
     s = System("ro", C.Source("BAT", vo=7.2, rs=0.1, limits={"io": [0.0, 2.0]}), rail="VBAT", group="power")
-    s.add_comp("BAT", comp=C.Converter("BUCK", vo=3.3, eff={"vi": [5.0, 9.0], "io": [0.01, 0.1, 0.5], "eff": [[0.7, 0.85, 0.9], [0.65, 0.8, 0.88]]},
-                                         iq=1e-4, iis=1e-6, rt=20.0), rail="3V3", group="power")
+    s.add_comp("BAT", comp=buck, rail="3V3", group="power")
     s.add_comp("3V3", comp=C.LinReg("LDO", vo=1.8, vdrop=0.2, ig={"vi": [3.3], "io": [0.0, 0.1], "ig": [[1e-5, 1e-4]]}), group="digital")
     s.add_comp("LDO", comp=C.PLoad("MCU", pwr=0.05, pwrs=1e-4, rt=40.0, limits={"tp": [-40.0, 85.0]}), group="digital")
     s.add_comp("BUCK", comp=C.ILoad("RADIO", ii=0.1, iis=1e-5, loss=True))
